@@ -195,6 +195,32 @@ def source_digests(files):
     return d
 
 
+BASELINE = os.path.join(HERE, "baseline_digests.json")
+
+
+def changed_sources(files):
+    """anchored source files whose normalised text (comments and white space removed) differs from the
+    digests recorded for the tree the evidence was last committed for (tools/baseline_digests.json)"""
+    try:
+        base = json.load(open(BASELINE))
+    except (OSError, ValueError):
+        return ["(no baseline digests)"]
+    cur = source_digests(files)
+    return sorted(f for f in files if base.get(f) != cur.get(f))
+
+
+def merge_results(a, b):
+    """second (escalated) pass merged into the first"""
+    out = dict(a)
+    for k in ("evaluations", "distinct_nontrivial", "traces_validated_against_impl"):
+        if isinstance(a.get(k), int) and isinstance(b.get(k), int):
+            out[k] = a[k] + b[k]
+    out["model_disagreements"] = list(a.get("model_disagreements", [])) + list(b.get("model_disagreements", []))
+    seen = {k for k, _ in a.get("monitor_failures", [])}
+    out["monitor_failures"] = list(a.get("monitor_failures", [])) + [(k, t) for k, t in b.get("monitor_failures", []) if k not in seen]
+    return out
+
+
 def known_findings(pid):
     p = os.path.join(VERIF, "KNOWN_FINDINGS.json")
     try:
@@ -258,10 +284,31 @@ def main():
         result = {"evaluations": 0}
     else:
         os.makedirs(WORK, exist_ok=True)
-        result = spec["run"](pid, tier, seed, a.replay, dict(HBIN=HBIN, DBIN=DBIN, WORK=WORK, VERIF=VERIF, LEAN=LEAN, sh=sh))
+        ctx = dict(HBIN=HBIN, DBIN=DBIN, WORK=WORK, VERIF=VERIF, LEAN=LEAN, sh=sh)
+        result = spec["run"](pid, tier, seed, a.replay, ctx)
         # result: dict(evaluations, distinct_nontrivial, rule, samples, traces_validated_against_impl,
         #              model_disagreements:[...], monitor_failures:[(key, replay_text)], extra:{})
         kf = known_findings(pid)
+        # Escalation (DESIGN 2.5/2.6): when the anchored source differs from the recorded digests, or the tie
+        # (proof, translator, correspondence) is broken, and the quick pass has not produced a failing input of
+        # its own, a second pass with the `medium` budget and another seed searches for one.
+        if tier == "quick" and not a.replay and os.environ.get("VERIF_NO_ESCALATE") != "1":
+            changed = changed_sources(spec.get("files", []))
+            unknown = [k for k, _ in result.get("monitor_failures", [])
+                       if not any(f.get("match") and re.search(f["match"], k) for f in kf)]
+            why = []
+            if changed:
+                why.append("anchored source changed: " + ", ".join(changed))
+            if proof_broken:
+                why.append("proof side broken: " + proof_broken[0])
+            if result.get("model_disagreements"):
+                why.append("correspondence disagreements in the quick pass")
+            if why and not unknown:
+                t1 = time.time()
+                second = spec["run"](pid, "medium", seed + 7919, None, ctx)
+                result = merge_results(result, second)
+                result.setdefault("extra", {})["escalated"] = {"why": why, "budget": "medium (8 x quick, capped by thorough), seed + 7919",
+                                                               "wall_s": round(time.time() - t1, 1)}
         for key, text in result.get("monitor_failures", []):
             hit = [f for f in kf if f.get("match") and re.search(f["match"], key)]
             if hit:
